@@ -37,7 +37,7 @@ static int stop_server(pid_t p, const char *dir, int *status)
 		usleep(2000);
 	}
 	kill(p, SIGTERM);
-	for (int i = 0; i < 3000; i++) { if (waitpid(p, status, WNOHANG) == p) return 1; usleep(1000); }
+	for (int i = 0; i < 30000; i++) { if (waitpid(p, status, WNOHANG) == p) return 1; usleep(1000); }   /* a generous watchdog, not a deadline */
 	kill(p, SIGKILL); waitpid(p, status, 0);
 	return 0;
 }
